@@ -209,6 +209,7 @@ var envFaults = []string{
 	"provider_vesting_slots_full", "vesting_slots_zero_then_epochs",
 	"hostile_registry_entries_small", "hostile_registry_entries_large", "gap_then_owner_partial_closes", "fast_year_then_owner_partial_closes",
 	"asset_entry_deleted_by_governance", "asset_entry_rewritten_by_governance",
+	"provider_vestings_mature_together", "vesting_schedule_shortened_under_provider_entries",
 }
 
 func init() {
@@ -374,6 +375,33 @@ func applyFault(c *run.Ctx, w *chain.World, g freeGen, name string, edges map[st
 		// slots and a long schedule the slots are all taken after a few epochs
 		w.GovExec(name, &commitmenttypes.MsgUpdateVestingInfo{Authority: w.Gov, BaseDenom: "ueden", VestingDenom: "uelys", NumBlocks: 10_000_000, VestNowFactor: 90, NumMaxVestings: 2})
 		g.Free(10, func(i int) int64 { return []int64{11 * 86400, 5}[i%2] })
+	case name == "provider_vestings_mature_together":
+		// a gap of several provider-vesting epochs is caught up one epoch per block: the provider
+		// reward account gets vesting entries in adjacent blocks; with a short schedule they run
+		// out between two epoch boundaries and the next boundary's claim finishes several at once
+		w.GovExec(name, &commitmenttypes.MsgUpdateVestingInfo{Authority: w.Gov, BaseDenom: "ueden", VestingDenom: "uelys", NumBlocks: 6, VestNowFactor: 90, NumMaxVestings: 12})
+		for round := 0; round < 3 && !w.Dead; round++ {
+			g.Free(18, func(i int) int64 {
+				if i == 0 {
+					return 35 * 86400
+				}
+				return 5
+			})
+			g.Free(2, func(i int) int64 { return []int64{11 * 86400, 5}[i] })
+		}
+	case name == "vesting_schedule_shortened_under_provider_entries":
+		// a long entry from one epoch, the schedule length cut by governance, a short entry from the
+		// next epoch: both are complete at the epoch after
+		w.GovExec(name, &commitmenttypes.MsgUpdateVestingInfo{Authority: w.Gov, BaseDenom: "ueden", VestingDenom: "uelys", NumBlocks: 30, VestNowFactor: 90, NumMaxVestings: 12})
+		g.Free(3, func(i int) int64 { return []int64{11 * 86400, 5, 5}[i] })
+		w.GovExec(name+"/short", &commitmenttypes.MsgUpdateVestingInfo{Authority: w.Gov, BaseDenom: "ueden", VestingDenom: "uelys", NumBlocks: 2, VestNowFactor: 90, NumMaxVestings: 12})
+		g.Free(30, func(i int) int64 {
+			if i == 0 {
+				return 11 * 86400
+			}
+			return 5
+		})
+		g.Free(4, func(i int) int64 { return []int64{11 * 86400, 5, 11 * 86400, 5}[i] })
 	case name == "vesting_slots_zero_then_epochs":
 		w.GovExec(name, &commitmenttypes.MsgUpdateVestingInfo{Authority: w.Gov, BaseDenom: "ueden", VestingDenom: "uelys", NumBlocks: 1000, VestNowFactor: 90, NumMaxVestings: 0})
 		p := w.App.EstakingKeeper.GetParams(w.ReadCtx())
